@@ -189,6 +189,11 @@ CATALOGUE = [
     ("trim-header-only-glyph", "ttLib/tables/_g_l_y_f.py", "        if numContours == 0:\n            # Some fonts have glyphs with a header and numberOfContours 0 (see\n            # expand()): there is no outline data whose end could be located.\n            return\n", "", "C07", "GlyphTrim", "alarm"),
     ("glyf-odd-padding-without-size-check", "ttLib/tables/_g_l_y_f.py", "            if indices and currentLocation + len(indices) < 0x20000:", "            if indices:", "C04", "GlyfTableCompile", "alarm"),
     ("woff2-bbox-bit-order", "ttLib/woff2.py", "        self.bboxBitmap[glyphID >> 3] |= 0x80 >> (glyphID & 7)", "        self.bboxBitmap[glyphID >> 3] |= 0x01 << (glyphID & 7)", "C04", "WOFF2BBoxCodec", "alarm"),
+    ("woff2-overlap-decoder-overwrites-flags", "ttLib/woff2.py", "            glyph.flags[0] |= _g_l_y_f.flagOverlapSimple", "            glyph.flags[0] = _g_l_y_f.flagOverlapSimple", "C04", "WOFF2OverlapSimpleFlagCodec", "alarm"),
+    ("woff2-npoints-stream-advanced-late", "ttLib/woff2.py", "        self.nPointsStream = data\n        self._decodeTriplets(glyph)", "        self._decodeTriplets(glyph)\n        self.nPointsStream = data", "C04", "WOFF2ContourEndPointsRoundTrip", "alarm"),
+    ("woff2-endpoints-list-copy", "ttLib/woff2.py", "        for endPoint in glyph.endPtsOfContours:\n            ptsOfContour = endPoint - lastEndPoint", "        for endPoint in list(glyph.endPtsOfContours):\n            ptsOfContour = endPoint - lastEndPoint", "C04", "WOFF2ContourEndPointsRoundTrip", "green"),
+    ("woff2-instruction-stream-off-by-one", "ttLib/woff2.py", "        self.instructionStream = instructionStream[instructionLength:]", "        self.instructionStream = instructionStream[instructionLength + 1:]", "C04", "WOFF2InstructionsRoundTrip", "alarm"),
+    ("woff2-decode-steps-reordered", "ttLib/woff2.py", "            self._decodeCoordinates(glyph)\n            self._decodeOverlapSimpleFlag(glyph, glyphID)", "            self._decodeOverlapSimpleFlag(glyph, glyphID)\n            self._decodeCoordinates(glyph)", "C04", "WOFF2GlyphDispatch", "alarm"),
     ("closure-memo-subset-spelling", "subset/__init__.py", "    if cur_glyphs.issubset(covered):\n        return\n    covered.update(cur_glyphs)\n\n    for st in self.SubTable:", "    if cur_glyphs <= covered:\n        return\n    covered.update(cur_glyphs)\n\n    for st in self.SubTable:", "C07", "LookupClosureMemo", "green"),
 ]
 
